@@ -3,6 +3,7 @@ package keeper
 import (
 	"context"
 	"fmt"
+	"sort"
 
 	"github.com/cosmos/cosmos-sdk/codec"
 	sdk "github.com/cosmos/cosmos-sdk/types"
@@ -94,9 +95,13 @@ func (sudo Sudoers) String() string {
 }
 
 func (sudo Sudoers) ToPb() sudotypes.Sudoers {
+	// Sort for a deterministic encoding: the set is backed by a Go map, whose
+	// iteration order is random.
+	contracts := sudo.Contracts.ToSlice()
+	sort.Strings(contracts)
 	return sudotypes.Sudoers{
 		Root:      sudo.Root,
-		Contracts: sudo.Contracts.ToSlice(),
+		Contracts: contracts,
 	}
 }
 
